@@ -92,6 +92,38 @@ fn check_partial_second(cut: usize) -> Option<String> {
         Ok(other) => Some(format!("{desc} expected=(/a, Truncated) actual={other:?}")),
     }
 }
+/// a stream of several requests (some preceded by stray bytes): the sequence of outcomes of read_http_request is the same for
+/// every way of cutting the stream into reads -- in particular it does not depend on what is already buffered when a
+/// call starts and what arrives during it.  The reference is the uncut stream.
+fn outcomes(t: &[u8], cuts: &[usize]) -> Result<Vec<String>, ()> {
+    let mut steps = Vec::new(); let mut prev = 0;
+    for &c in cuts { if c > prev && c < t.len() { steps.push(Step::Data(t[prev..c].to_vec())); prev = c; } }
+    steps.push(Step::Data(t[prev..].to_vec())); steps.push(Step::Eof);
+    std::panic::catch_unwind(|| {
+        let mut buf: FixedBuf<N> = FixedBuf::new();
+        let mut rd = ScriptReader::new(steps);
+        let addr = std::net::SocketAddr::from(([127, 0, 0, 1], 1));
+        let mut v = Vec::new();
+        for _ in 0..6 {
+            match block_on(read_http_request(addr, &mut buf, &mut rd)) { Ok(r) => v.push(format!("Ok({} {})", r.method, r.url.path())), Err(e) => { v.push(format!("Err({e:?})")); break; } }
+        }
+        v
+    }).map_err(|_| ())
+}
+fn check_reqstream(t: &[u8], cuts: &[usize]) -> Option<String> {
+    let desc = format!("reqstream bytes={} cuts={cuts:?}", hex(t));
+    let want = match outcomes(t, &[]) { Ok(v) => v, Err(()) => return Some(format!("{desc} expected=no-panic actual=panic (uncut)")) };
+    match outcomes(t, cuts) { Err(()) => Some(format!("{desc} expected={want:?} actual=panic")), Ok(got) => if got == want { None } else { Some(format!("{desc} expected={want:?} (the uncut stream) actual={got:?}")) } }
+}
+fn reqstreams() -> Vec<Vec<u8>> {
+    vec![b"M /1 HTTP/1.1\r\n\r\nM /2 HTTP/1.1\r\nH: v\r\n\r\n".to_vec(),
+         b"\r\nM /1 HTTP/1.1\r\nH: v\r\n\r\n".to_vec(),
+         b"M /1 HTTP/1.1\r\n\r\n\r\nM /2 HTTP/1.1\r\n\r\n".to_vec(),
+         b"M /1 HTTP/1.1\r\n\r\n\r\n\r\nM /2 HTTP/1.1\r\n\r\n".to_vec(),
+         b"M /1 HTTP/1.1\r\n\r\n\nM /2 HTTP/1.1\r\n\r\n".to_vec(),
+         b"M /1 HTTP/1.1\r\n\r\n M /2 HTTP/1.1\r\n\r\n".to_vec(),
+         b"M /1 HTTP/1.1\r\n\r\nM /2 HTTP/1.1\r\n\r\nM /3 HTT".to_vec()]
+}
 fn hex(b: &[u8]) -> String { b.iter().map(|x| format!("{x:02x}")).collect() }
 fn unhex(s: &str) -> Vec<u8> { (0..s.len() / 2).map(|i| u8::from_str_radix(&s[2 * i..2 * i + 2], 16).unwrap()).collect() }
 
@@ -103,6 +135,12 @@ fn main() {
         if w.starts_with("partialsecond") {
             let cut: usize = w.split("cuts=[").nth(1).unwrap().split(']').next().unwrap().trim().parse().unwrap_or(0);
             match check_partial_second(cut) { Some(m) => { println!("WITNESS {m}"); std::process::exit(1) } None => { println!("OK witness no longer fails"); std::process::exit(0) } }
+        }
+        if w.starts_with("reqstream") {
+            let bytes = unhex(w.split("bytes=").nth(1).unwrap().split(' ').next().unwrap());
+            let cs = w.split("cuts=[").nth(1).unwrap().split(']').next().unwrap();
+            let cuts: Vec<usize> = cs.split(',').filter_map(|x| x.trim().parse().ok()).collect();
+            match check_reqstream(&bytes, &cuts) { Some(m) => { println!("WITNESS {m}"); std::process::exit(1) } None => { println!("OK witness no longer fails"); std::process::exit(0) } }
         }
         if w.starts_with("pipelined") {
             let bytes = unhex(w.split("bytes=").nth(1).unwrap().split(' ').next().unwrap());
@@ -169,6 +207,12 @@ fn main() {
         }
     }
     for cut in 0..32 { n += 1; if let Some(m) = check_partial_second(cut) { if found.len() < 5 { found.push(m) } } }
+    for t in reqstreams() {
+        for c1 in 1..t.len() { n += 1; if let Some(m) = check_reqstream(&t, &[c1]) { if found.len() < 5 { found.push(m) } }
+            for c2 in (c1 + 1)..t.len().min(c1 + 8) { n += 1; if let Some(m) = check_reqstream(&t, &[c1, c2]) { if found.len() < 5 { found.push(m) } } } }
+        let all: Vec<usize> = (1..t.len()).collect();
+        n += 1; if let Some(m) = check_reqstream(&t, &all) { if found.len() < 5 { found.push(m) } }
+    }
     println!("EVALUATED {n}");
     for f in &found { println!("WITNESS {f}"); }
     std::process::exit(if found.is_empty() { 0 } else { 1 });
